@@ -102,6 +102,7 @@ func c12formulas(c *Ctx, p *pkgT, cands []*types.Func) (mindist, minmax *types.F
 	_ = half
 	for _, f := range cands {
 		isMin, isMM := true, true
+		isRootMin, isRootMM := true, true // the linear distance: its square is the bound
 		why := ""
 		firstBadMin, firstBadMM := "", ""
 		for _, x := range xs {
@@ -118,6 +119,14 @@ func c12formulas(c *Ctx, p *pkgT, cands []*types.Func) (mindist, minmax *types.F
 					why = "result " + showVal(res[0])
 					isMin, isMM = false, false
 					continue
+				}
+				if g2 := symMul(got, got); !g2.equal(specMin(x.v, y.v)) || len(got) == 0 && len(specMin(x.v, y.v)) != 0 {
+					isRootMin = false
+				} else if !rootLike(got) {
+					isRootMin = false
+				}
+				if g2 := symMul(got, got); !g2.equal(specMinMax(x.v, y.v)) || !rootLike(got) {
+					isRootMM = false
 				}
 				if !got.equal(specMin(x.v, y.v)) {
 					if isMin {
@@ -144,6 +153,10 @@ func c12formulas(c *Ctx, p *pkgT, cands []*types.Func) (mindist, minmax *types.F
 			c.OK("C12.R6", cons, pos, "equals MINMAXDIST² (Roussopoulos et al., definition 4) as a polynomial in the coordinates for all 16 placements of the point")
 		case why != "":
 			c.Unk("C12.R6", cons, pos, "a point-to-box function that is not interpretable: %s", why)
+		case isRootMin:
+			c.OK("C12.R6", cons, pos, "the square root of MINDIST² (a linear distance) for all 16 placements of the point")
+		case isRootMM:
+			c.OK("C12.R6", cons, pos, "the square root of MINMAXDIST² (a linear distance) for all 16 placements of the point")
 		default:
 			// neither: report against the nearer specification (fewest characters of difference is
 			// no guide; use the name-free heuristic: a function that returns 0 inside the box is MINDIST)
@@ -558,4 +571,22 @@ func (m *c12m) objectOf(v oval) (int, bool) {
 	}
 	i, ok := m.objIndex[p.s]
 	return i, ok
+}
+
+// rootLike: zero, or a single square-root atom with coefficient one (so that p·p = P means p = √P,
+// not −√P or a sum that happens to square to P).
+func rootLike(p poly) bool {
+	if len(p) == 0 {
+		return true
+	}
+	if len(p) != 1 {
+		return false
+	}
+	for k, c := range p {
+		if c.Cmp(big.NewRat(1, 1)) != 0 || strings.Contains(k, "*") {
+			return false
+		}
+		return strings.HasPrefix(k, "sqrt(")
+	}
+	return false
 }
